@@ -47,6 +47,7 @@ CONSTANTS
   MaxSlots = %(maxslots)d
   Menus <- %(menus)s
   ArgSel = "%(argsel)s"
+  Fixes = %(fixes)s
 INVARIANTS Emit
 CHECK_DEADLOCK FALSE
 """
@@ -75,10 +76,11 @@ TIERS = {
 
 
 # ------------------------------------------------------------------ generation
-def generate(ctx):
+def generate(ctx, fixes):
     progs = []
+    fx = "{" + ", ".join('"%s"' % f for f in fixes) + "}"
     for k, t in enumerate(TIERS[ctx.tier]):
-        r = ctx.tlc("Trim", "MC_Trim", "gen.cfg", files={"gen.cfg": CFG % t}, timeout=3000, label="MC_Trim[%d]" % k)
+        r = ctx.tlc("Trim", "MC_Trim", "gen.cfg", files={"gen.cfg": CFG % dict(t, fixes=fx)}, timeout=3000, label="MC_Trim[%d]" % k)
         ps = ctx.tlc_cases(r)
         if not ps:
             raise vlib.MachineryError("TLC emitted no programs for universe %d" % k)
@@ -627,10 +629,33 @@ def lab_phase(ctx, progs, rows, rejected, nprog):
 
 
 # ------------------------------------------------------------------ entry
+PROBES = [
+    # (fix name, files, methods, predicate on the observation that tells the repair is present)
+    ("localbase",
+     {"a.thrift": 'include "b.thrift"\nservice S extends b.B2 { void m1(1: i32 x) }\n',
+      "b.thrift": 'service B1 { void p1(1: i32 x) }\nservice B2 extends B1 { void p2(1: i32 x) }\n'}, [],
+     lambda o: not o["t1"]["err"]),
+    ("extinc",
+     {"a.thrift": 'namespace go a\ninclude "b.thrift"\nservice S extends b.B { void m1(1: i32 x) }\n',
+      "b.thrift": 'namespace go b\nstruct X {1: i32 a}\nservice B { void p1(1: X x) }\n'}, ["S.m1"],
+     lambda o: not o["t1"]["err"] and all(not f["includes"] for f in o["t1"]["files"] if f["path"] == "a.thrift")),
+]
+
+
 def probe_fixes(ctx, harness):
     """Layer B transcribes the pinned algorithm including two behaviours a repair would change; two probe inputs
-    tell which variant the tree under test has, so that B stays a transcription of THIS tree."""
-    return []
+    tell which variant the tree under test has, so that B stays a transcription of THIS tree (B is never the oracle)."""
+    lines = [{"id": i, "main": "a.thrift", "files": files, "yaml": None,
+              "args": {"methods": m, "preserve": None, "disable_comment": None, "pstructs": []}}
+             for i, (_, files, m, _) in enumerate(PROBES)]
+    obs = run_harness(ctx, harness, lines, "probe")
+    fixes = []
+    for (name, _, _, pred), o in zip(PROBES, obs):
+        if o.get("pre_err") or not o.get("t1"):
+            raise vlib.MachineryError("probe %s failed: %s" % (name, o.get("pre_err")))
+        if pred(o):
+            fixes.append(name)
+    return fixes
 
 
 def run(ctx, args):
@@ -639,7 +664,10 @@ def run(ctx, args):
         return replay(ctx, harness, args.replay)
     thorough = ctx.tier == "thorough"
     trimmer = ctx.build_repo("./tool/trimmer", "trimmer")
-    progs = generate(ctx)
+    fixes = probe_fixes(ctx, harness)
+    vlib.log("layer B variant: Fixes = %s" % fixes)
+    ctx.extra_cov["layerB_fixes_detected"] = fixes
+    progs = generate(ctx, fixes)
     vacuity(progs)
     ncases = sum(len(p["cases"]) for p in progs)
     vlib.log("universe: %d programs, %d cases" % (len(progs), ncases))
